@@ -67,6 +67,9 @@ func (e *Exec) mapKeyTerm(k types.Type, term string) string {
 			e.sc.mapKeys = append(e.sc.mapKeys, term)
 		}
 	}
+	if !strings.Contains(term, "q.") {
+		e.sc.noteIdx(fmt.Sprintf("(str.id %s)", term), "Int")
+	}
 	return fmt.Sprintf("(str.id %s)", term)
 }
 
